@@ -102,6 +102,16 @@ class ForeignChild(Foreign):
         self.extra = extra
 
 
+class WriteOnly:
+    """A third-party type registered with a serialiser but WITHOUT a deserialiser: it can be written, not read."""
+
+    def __init__(self, x=0):
+        self.x = x
+
+
+JSONSerializableTypeRegistry().register(WriteOnly, lambda obj: {JSON_TYPE_NAME: get_full_class_name(WriteOnly), "x": obj.x}, None)
+
+
 class UUIDChild(uuid.UUID):
     """A subclass of a registered third-party type; not registered itself."""
 
